@@ -264,6 +264,20 @@ pub async fn run(args: &Args, sink: &mut Sink, rng: &mut Rng) -> Stream {
             }
             out
         };
+        // finding zonemap_zone_spans_fragments: the builder advances to the next fragment too early when a zone of
+        // fragment j-1 fills up inside the batch (of rows_per_zone rows) that holds the start of fragment j
+        let spans = {
+            let z = zone as usize;
+            let mut starts = vec![0usize];
+            for (_, vs) in &frags {
+                starts.push(starts.last().unwrap() + vs.len());
+            }
+            (1..frags.len()).any(|j| {
+                let (sp, sj) = (starts[j - 1], starts[j]);
+                let (a, q, m) = (sp % z, sp / z, sj / z);
+                a != 0 && m > q && m * z + a < sj
+            })
+        };
         let frags_c = coq::list(frags.iter().map(|(fid, vs)| format!("({fid}, {})", coq::list(vs.iter().map(|v| ofv(*v))))));
         for _ in 0..args.vol(14, 30) {
             let q = gen_q(rng);
@@ -276,15 +290,20 @@ pub async fn run(args: &Args, sink: &mut Sink, rng: &mut Rng) -> Stream {
                         if missing.is_empty() {
                             sink.oracle_ok();
                         } else {
-                            sink.oracle_fail(None, "zone map search drops a matching row", json!({"case": case, "missing": missing}));
+                            sink.oracle_fail(if spans { Some("zonemap_zone_spans_fragments") } else { None }, "zone map search drops a matching row", json!({"case": case, "missing": missing}));
                         }
                     } else {
                         sink.oracle_ok();
                     }
                     sink.count(&format!("zone:{}", match q { Q::IsNull => "isnull", Q::Equals(_) => "equals", Q::Range(..) => "range", Q::IsIn(_) => "isin" }));
-                    let inp = format!("({zone}, {frags_c}, {})", q.coq());
-                    sink.nontrivial(&inp);
-                    st.push(inp, coq::nlist(rows.iter()), case.clone());
+                    // the model is the per-fragment builder: compared outside the finding class only
+                    if spans {
+                        sink.count("zone:in-class-spans-fragments");
+                    } else {
+                        let inp = format!("({zone}, {frags_c}, {})", q.coq());
+                        sink.nontrivial(&inp);
+                        st.push(inp, coq::nlist(rows.iter()), case.clone());
+                    }
                 }
                 Err(e) => sink.oracle_fail(None, "zone map search failed", json!({"case": case, "error": e.chars().take(200).collect::<String>()})),
             }
